@@ -241,7 +241,7 @@ func TestC11FailoverOwnedBackend(t *testing.T) {
 			if generic {
 				fe = foOf{cache.NewFailoverOf[string](cache.FailoverConfigOf[string]{BackendConfig: bcfg, MaxStaleness: ms, FailedUpdateTTL: -1}.Use)}
 			} else {
-				fe = foPlain{cache.NewFailover(cache.FailoverConfig{BackendConfig: bcfg, MaxStaleness: ms, FailedUpdateTTL: -1}.Use)}
+				fe = foPlain{f: cache.NewFailover(cache.FailoverConfig{BackendConfig: bcfg, MaxStaleness: ms, FailedUpdateTTL: -1}.Use)}
 			}
 
 			c.OnClose(1, fe.Close)
